@@ -40,32 +40,39 @@ def listCapture (hs : List Nat) (st : DynList.St) (ev : DynExec.Ev) : Cmd × Dyn
 def routeBelow (o : Oracle) (s : Vxfw.St) (post : List Id) : List (Id × Phase) :=
   (post.filter o.captures).map (·, .capture) ++ [(s.focused, .target)] ++ s.path.dropLast.reverse.map (·, .bubble)
 
-/-- **A `j` key reaches the list first and stops there when the selection moves.**  Any application state whose focus path
+/-- What `CaptureEvent` does with a key event according to the model (`ev.keys` = the arguments `ev.Matches` accepts). -/
+def captureModel (hs : List Nat) (st : DynList.St) (ev : DynExec.Ev) : DynList.St × Bool :=
+  if "'j'" ∈ ev.keys ∨ "vaxis.KeyDown" ∈ ev.keys then DynList.nextItem hs st
+  else if "'k'" ∈ ev.keys ∨ "vaxis.KeyUp" ∈ ev.keys then DynList.prevItem hs st else (st, false)
+
+/-- **A key reaches the list first and stops there when the selection moves.**  Any application state whose focus path
     runs through the list `L` (`path = pre ++ L :: post`, no capturing widget above the list), any behaviour of all the other
-    widgets (no focus commands in answers), the list answering with what its executed `CaptureEvent` returns:
-    * the list's new state is `NextItem`'s (cursor + 1 when an item follows, scroll re-anchored);
+    widgets (no focus commands in answers), ANY key event, the list answering with what its executed `CaptureEvent` returns:
+    * the list's new state is the model's (`j`/Down: `NextItem`, `k`/Up: `PrevItem`, any other key: unchanged);
     * if the selection moved, the whole dispatch is: the list's capture call, then `redraw` and `consume` taking effect, once
       each — no other handler is called (the focused widget never sees the key);
-    * if it did not move (no next item), the list's call has no effect and the key goes on: capturing widgets below the list,
-      the focused widget, then the bubble phase. -/
-theorem list_key_j (o : Oracle) (hnf : FocusFree o) (fuel : Nat) (s : Vxfw.St) (k : Nat) (pre post : List Id) (L : Id)
+    * if it did not move (no such item, or another key), the list's call has no effect and the key goes on: capturing
+      widgets below the list, the focused widget, then the bubble phase. -/
+theorem list_key (o : Oracle) (hnf : FocusFree o) (fuel : Nat) (s : Vxfw.St) (k : Nat) (pre post : List Id) (L : Id)
     (hpath : s.path = pre ++ L :: post) (hpre : ∀ w ∈ pre, o.captures w = false) (hL : o.captures L = true)
-    (hs : List Nat) (st : DynList.St) (hc : st.cursor < 2 ^ 64)
-    (hans : o.h L (.key k) .capture s.calls = (listCapture hs st (DynExec.keyEv ["'j'"])).1) :
-    (listCapture hs st (DynExec.keyEv ["'j'"])).2 = (DynList.nextItem hs st).1 ∧
-    ((DynList.nextItem hs st).2 = true →
+    (hs : List Nat) (st : DynList.St) (hc : st.cursor < 2 ^ 64) (ev : DynExec.Ev) (hev : ev.typ = "vaxis.Key")
+    (hans : o.h L (.key k) .capture s.calls = (listCapture hs st ev).1) :
+    (listCapture hs st ev).2 = (captureModel hs st ev).1 ∧
+    ((captureModel hs st ev).2 = true →
       (handleEvent o (fuel + 1) s (.key k)).trace =
         s.trace ++ [.call L (.key k) .capture, .eff .redraw, .eff .consume]) ∧
-    ((DynList.nextItem hs st).2 = false →
+    ((captureModel hs st ev).2 = false →
       (handleEvent o (fuel + 1) s (.key k)).trace =
         s.trace ++ .call L (.key k) .capture :: specRun o.h (.key k) (s.calls + 1) (routeBelow o s post)) := by
-  have hcap := C19Exec.capture_event_body_eq_model hs st false (DynExec.keyEv ["'j'"]) hc
-  simp [DynExec.keyEv] at hcap
-  have hlc : listCapture hs st (DynExec.keyEv ["'j'"]) =
-      (if (DynList.nextItem hs st).2 then consumeAndRedraw else .nil, (DynList.nextItem hs st).1) := by
-    unfold listCapture
-    simp only [DynExec.keyEv, hcap]
-    obtain ⟨st', b⟩ := DynList.nextItem hs st
+  have hcap := C19Exec.capture_event_body_eq_model hs st false ev hc
+  simp only [hev, Bool.false_eq_true, if_false, if_true] at hcap
+  have hlc : listCapture hs st ev =
+      (if (captureModel hs st ev).2 then consumeAndRedraw else .nil, (captureModel hs st ev).1) := by
+    unfold listCapture captureModel
+    rw [hcap]
+    generalize (if "'j'" ∈ ev.keys ∨ "vaxis.KeyDown" ∈ ev.keys then DynList.nextItem hs st
+      else if "'k'" ∈ ev.keys ∨ "vaxis.KeyUp" ∈ ev.keys then DynList.prevItem hs st else (st, false)) = r
+    obtain ⟨st', b⟩ := r
     cases b <;> rfl
   have hroute : route o.captures s.path s.focused = (L, .capture) :: routeBelow o s post := by
     have hf : pre.filter o.captures = [] := by
@@ -83,6 +90,21 @@ theorem list_key_j (o : Oracle) (hnf : FocusFree o) (fuel : Nat) (s : Vxfw.St) (
     simp only [hm] at hans
     rw [ht]
     simp [specRun, hans, Cmd.flatten]
+
+/-- The `j` key: the selection moves to the next item, if there is one, and then nobody else sees the key. -/
+theorem list_key_j (o : Oracle) (hnf : FocusFree o) (fuel : Nat) (s : Vxfw.St) (k : Nat) (pre post : List Id) (L : Id)
+    (hpath : s.path = pre ++ L :: post) (hpre : ∀ w ∈ pre, o.captures w = false) (hL : o.captures L = true)
+    (hs : List Nat) (st : DynList.St) (hc : st.cursor < 2 ^ 64)
+    (hans : o.h L (.key k) .capture s.calls = (listCapture hs st (DynExec.keyEv ["'j'"])).1) :
+    (listCapture hs st (DynExec.keyEv ["'j'"])).2 = (DynList.nextItem hs st).1 ∧
+    ((DynList.nextItem hs st).2 = true →
+      (handleEvent o (fuel + 1) s (.key k)).trace =
+        s.trace ++ [.call L (.key k) .capture, .eff .redraw, .eff .consume]) := by
+  have h := list_key o hnf fuel s k pre post L hpath hpre hL hs st hc (DynExec.keyEv ["'j'"]) rfl hans
+  have hm : captureModel hs st (DynExec.keyEv ["'j'"]) = DynList.nextItem hs st := by
+    simp [captureModel, DynExec.keyEv]
+  rw [hm] at h
+  exact ⟨h.1, h.2.1⟩
 
 /-- Non-vacuity: three items, cursor on the first: the executed `CaptureEvent` answers `ConsumeAndRedraw()` and the cursor
     is on the second item. -/
